@@ -1,7 +1,44 @@
 #[cfg(test)]
 mod verif_demo_xlsbwb_c06 {
     use super::*;
-    use super::verif_demo_xlsbwb_framing::{bundle, open, rec, wstr};
+    use std::io::{Cursor, Write};
+
+    /// one record: 1- or 2-byte type, 1-byte size, payload ([MS-XLSB] 2.1.4)
+    fn rec(typ: u16, payload: &[u8]) -> Vec<u8> {
+        let mut v = Vec::new();
+        if typ < 0x80 { v.push(typ as u8); } else { v.push((typ & 0x7F) as u8 | 0x80); v.push((typ >> 7) as u8); }
+        assert!(payload.len() < 0x80);
+        v.push(payload.len() as u8);
+        v.extend_from_slice(payload);
+        v
+    }
+    fn wstr(s: &str) -> Vec<u8> {
+        let u: Vec<u16> = s.encode_utf16().collect();
+        let mut v = (u.len() as u32).to_le_bytes().to_vec();
+        for c in u { v.extend_from_slice(&c.to_le_bytes()); }
+        v
+    }
+    /// BrtBundleSh: hsState, iTabID, strRelID, strName
+    fn bundle(hs: u32, tab: u32, rid: &str, name: &str) -> Vec<u8> {
+        let mut p = hs.to_le_bytes().to_vec();
+        p.extend_from_slice(&tab.to_le_bytes());
+        p.extend(wstr(rid));
+        p.extend(wstr(name));
+        rec(0x009C, &p)
+    }
+    /// an in-memory xlsb package: workbook.bin, its relationship part (rId1 -> target), optional styles / shared strings parts
+    fn open(workbook: &[u8], target: &str, styles: Option<&[u8]>, sst: Option<&[u8]>) -> Result<Xlsb<Cursor<Vec<u8>>>, XlsbError> {
+        let mut zw = zip::ZipWriter::new(Cursor::new(Vec::new()));
+        let opt = zip::write::SimpleFileOptions::default().compression_method(zip::CompressionMethod::Stored);
+        zw.start_file("xl/workbook.bin", opt).unwrap();
+        zw.write_all(workbook).unwrap();
+        zw.start_file("xl/_rels/workbook.bin.rels", opt).unwrap();
+        zw.write_all(format!(r#"<?xml version="1.0" encoding="UTF-8"?><Relationships xmlns="http://schemas.openxmlformats.org/package/2006/relationships"><Relationship Id="rId1" Type="http://schemas.openxmlformats.org/officeDocument/2006/relationships/worksheet" Target="{target}"/></Relationships>"#).as_bytes()).unwrap();
+        if let Some(s) = styles { zw.start_file("xl/styles.bin", opt).unwrap(); zw.write_all(s).unwrap(); }
+        if let Some(s) = sst { zw.start_file("xl/sharedStrings.bin", opt).unwrap(); zw.write_all(s).unwrap(); }
+        let cur = zw.finish().unwrap();
+        Xlsb::new(Cursor::new(cur.into_inner()))
+    }
 
     fn wb(records: &[Vec<u8>]) -> Vec<u8> {
         let mut w = rec(0x0083, &[]);
